@@ -321,3 +321,4 @@ H("C09", "html/boxes", "VxH_C09_wellformed", reach=["built"], bounds="x-p > x-s 
 H("C16", "html/document", "VxH_C16_paint", reach=["laid-out", "drawn"], bounds="html > body > (section, article > nav, aside), unique background / border / outline colours; section {static,relative} x {z auto,-1,1} x {opaque,translucent}; article {static,relative} x {z auto,1} x {float none,left}; aside {static,relative} x {z auto,-1,0,1} (thorough: x translucent)", quick={"maxsteps": 200000000, "time": "800s", "shards": 8}, thorough={"maxsteps": 200000000, "shards": 14})
 for _p in ("C15", "C01", "C18"):
     H(_p, "svg", "VxH_C15_svg_templates", reach=["resolved"], bounds="three gradient definitions, href of each one of {none, #g0, #g1, #g2} (all 64 reference graphs, cycles included), visiting order of the definitions map a solver-chosen permutation in two independent runs", quick={"maxsteps": 80000000, "shards": 6})
+H("C14", "svg", "VxH_C14_svg_dashes", mode="real", nonfinite_confirm=True, reach=["resolved", "pattern"], bounds="stroke-dasharray of 1..2 (thorough 3) px lengths and a px dash offset, all unbounded symbolic reals; paths with a float division by zero are decided by running their solver model natively")
